@@ -46,6 +46,14 @@ def pred_class(case):
 
 def gen_api_desc(rng, nasty_attrs):
     d = setbuild.rand_desc(rng, unbalanced=0.0, absolute=0.0, style_layout=0.3)
+    if rng.random() < 0.2:
+        # properly nested spans (what the SAMI reader returns for <i>a <b>b</b> c</i>): a style DFXP cannot express inside
+        # one it can, and the other way round
+        outer, inner = rng.choice([({"italics": True}, {"bold": True}), ({"italics": True}, {"underline": True}), ({"bold": True}, {"italics": True}),
+                                   ({"color": "red"}, {"bold": True}), ({"italics": True}, {"class": "nosuchclass"})])
+        c = d["langs"][0]["caps"][0]
+        c["nodes"] = [["S", True, dict(outer)], ["T", "a "], ["S", True, dict(inner)], ["T", "b"], ["S", False, dict(inner)], ["T", " c"],
+                      ["S", False, dict(outer)], ["B"], ["T", "d"]]
     for L in d["langs"]:
         for c in L["caps"]:
             for n in c["nodes"]:
